@@ -534,7 +534,7 @@ func c14Project(cs c14Case, qs []c14Q, ask []int, traced bool, gids []uint64, re
 
 func init() {
 	register("exec-c14", func(in []json.RawMessage, out *Out, args []string) error {
-		deadline := 25 * time.Second
+		deadline := 60 * time.Second // generous: the machine may be heavily loaded; only a reproducible hang pays it twice
 		if s := os.Getenv("C14_DEADLINE_MS"); s != "" {
 			if n, err := strconv.Atoi(s); err == nil {
 				deadline = time.Duration(n) * time.Millisecond
